@@ -20,7 +20,7 @@ UNITS = {
     's_c01_gr': dict(cpp='harness/s_point.cpp', coroutines=('T_get0', 'T_remove1'), inline_all=True, cdefs=('YK_VAL_CAP=16', 'YK_NALLOC=4', 'YK_DRAIN_ROUNDS=2'), cuts=('delete_ofILb0', 'get_child_of', 'interior_node9delete_of', '9delete_ofEPvPNS_13tree_instanceEPNS_9base_nodeE')),
     's_c01n': dict(cpp='harness/s_point.cpp', coroutines=('T_get0', 'T_remove1'), nested=True, cdefs=('YK_VAL_CAP=16', 'YK_NALLOC=4', 'YK_DRAIN_ROUNDS=3'), cuts=('delete_ofILb0', 'get_child_of', 'interior_node9delete_of', '9delete_ofEPvPNS_13tree_instanceEPNS_9base_nodeE')),
     'i_point': dict(cpp='harness/s_point.cpp', intruder=True, cdefs=('YK_VAL_CAP=16', 'YK_NALLOC=6', 'YK_MAX_RETRIES=1'), cuts=('delete_ofILb0', 'get_child_of', 'interior_node9delete_of', '9delete_ofEPvPNS_13tree_instanceEPNS_9base_nodeE')),
-    'n_misc': dict(cpp='harness/n_misc.cpp', cdefs=('YK_VAL_CAP=64',)),
+    'n_misc': dict(cpp='harness/n_misc.cpp', cdefs=('YK_VAL_CAP=64', 'YK_MEMCPY_BUILTIN'), no_typed_arrays=True),
     # scan on T0/T1: no interior node, no vector growth (the harness reserves), no retry clean-up (single thread)
     'n_scan': dict(cpp='harness/n_scan.cpp', cdefs=('YK_VAL_CAP=16', 'YK_NALLOC=12', 'YK_ARR_CAP=4', 'YK_MEMCPY_CAP=16', 'YK_MEMCMP_CAP=16'), defines=('YK_KEYB=2',),
                    cuts=('get_child_of', '17_M_realloc_insert', '8_M_eraseEN')),
@@ -28,9 +28,9 @@ UNITS = {
                     cuts=('get_child_of', '17_M_realloc_insert', '8_M_eraseEN'), defines=('YK_KEYB=2',)),
     'n_scan3': dict(cpp='harness/n_scan.cpp', cdefs=('YK_VAL_CAP=16', 'YK_NALLOC=16', 'YK_ARR_CAP=6', 'YK_MEMCPY_CAP=16', 'YK_MEMCMP_CAP=16'),
                     cuts=('17_M_realloc_insert', '8_M_eraseEN'), defines=('YK_KEYB=2',)),
-    'n_iscan': dict(cpp='harness/n_iscan.cpp', cdefs=('YK_VAL_CAP=136', 'YK_NALLOC=16', 'YK_ARR_CAP=9', 'YK_MEMCPY_CAP=16', 'YK_MEMCMP_CAP=16', 'YK_MAX_LAYERS=1'),
+    'n_iscan': dict(cpp='harness/n_iscan.cpp', cdefs=('YK_MEMCPY_TI64', 'YK_VAL_CAP=136', 'YK_NALLOC=16', 'YK_ARR_CAP=9', 'YK_MEMCPY_CAP=16', 'YK_MEMCMP_CAP=16', 'YK_MAX_LAYERS=1', 'YK_STR_MAX=30'),
                     cuts=('get_child_of', '17_M_realloc_insert', '8_M_eraseEN', '17_M_reallocate_map', '16_M_push_back_aux', '15_M_pop_back_aux'), defines=('YK_KEYB=2',), new_hints={512: 'iscan_context::stack_element'}),
-    'n_storage': dict(cpp='harness/n_storage.cpp', cdefs=('YK_VAL_CAP=136', 'YK_NALLOC=16', 'YK_ARR_CAP=4', 'YK_MEMCPY_CAP=16', 'YK_MEMCMP_CAP=16'),
+    'n_storage': dict(cpp='harness/n_storage.cpp', cdefs=('YK_MEMCPY_TI64', 'YK_VAL_CAP=136', 'YK_NALLOC=16', 'YK_ARR_CAP=4', 'YK_MEMCPY_CAP=16', 'YK_MEMCMP_CAP=16'),
                       cuts=('get_child_of', '8_M_eraseEN', 'delete_ofILb0', 'interior_node9delete_of'), defines=('YK_KEYB=2',)),
     'k_value': dict(cpp='harness/k_value.cpp', cdefs=('YK_VAL_CAP=48',)),
 }
@@ -70,12 +70,14 @@ _SCAN_Q = [
     H('n_scan', 'H_scan_t1_n1', 'real scan<char> on T1(1) vs reference interval filter (order, keys, values, lengths, truncation, direction, bad usage)', 'T1(1); ' + SCANREQ + KEYB2, data=1),
     H('n_scan', 'H_scan_t1_n1_long', 'same with endpoint keys of up to 264 bytes (the length does not fit the 8-bit key_length_type used inside nodes), forward', 'T1(1); endpoint keys 0..264 bytes (at most one of them longer than 16), bytes beyond the 10th 0x00' + KEYB2, data=1, timeout=900),
     H('n_scan', 'H_scan_t1_n2', 'same on T1(2), scrambled slots', 'T1(2); ' + SCANREQ + KEYB2, data=1, timeout=900),
-    H('n_scan3', 'H_scan_t3_11', 'same on an interior root over two borders (scan crosses a node boundary; INF must ignore its key)', 'T3(2;1,1); ' + SCANREQ + KEYB2, data=2, timeout=1500),
+    H('n_scan3', 'H_scan_t3_11_linf', 'interior root over two borders, forward scan with l_end = INF and an ARBITRARY l_key (INF must ignore its key), right endpoint symbolic: the scan crosses a node boundary', 'T3(2;1,1); l_end INF, l_key/r_key 0..10 bytes, r_end all kinds, max_size 0..3, forward' + KEYB2, data=2, timeout=1500),
+    H('n_scan3', 'H_scan_t3_11_lfin', 'same with an INCLUSIVE left endpoint (the scan starts in the border that holds l_key)', 'T3(2;1,1); l_end INCLUSIVE, forward' + KEYB2, data=2, timeout=1500),
 ]
 # two-layer shapes (H_scan_t2_*, H_c05_scan_put_t2_*): the recursive scan_border -> scan -> scan_border chain over std::string
 # prefixes does not finish in 1500 s even on T2(1;1); the harnesses stay in harness/n_scan.cpp, unregistered (DESIGN.md 11)
 _SCAN_T = [
     H('n_scan', 'H_scan_t1_n3', 'scan on T1(3)', 'T1(3); ' + SCANREQ + KEYB2, data=1, tier='thorough', timeout=3400),
+    H('n_scan3', 'H_scan_t3_11', 'scan on an interior root over two borders, request fully symbolic (all endpoint kinds, both directions)', 'T3(2;1,1); ' + SCANREQ + KEYB2, data=2, tier='thorough', timeout=3400),
     H('n_scan3', 'H_scan_t3_12', 'scan on T3(2;1,2)', 'T3(2;1,2); ' + SCANREQ + KEYB2, data=2, tier='thorough', timeout=3400),
 ]
 _C05_SCAN_Q = [
@@ -133,8 +135,8 @@ REGISTRY = {
         H('s_c14', 'H_c14_concurrent_enter', 'session acquisition never blocks: all enters complete', 'NT=3, CTX=6', sync=3, timeout=1200),
     ] + _T1_GET + _T1_REMOVE + _T1_PUT + _C01_Q + [h for h in _C01_I],
     'C20': [
-        H('n_misc', 'H_c20_t1_n1', 'real mem_usage (virtual dispatch) on T1(1): values of symbolic length 0..8 and alignment 1..16', 'exact node count / reserved / used bytes', unwind={'_M_realloc': 3}),
-        H('n_misc', 'H_c20_t3', 'interior root over two leaves: per-level node counts and footprints', 'T3(2;1,2)', unwind={'_M_realloc': 3}),
+        H('n_misc', 'H_c20_t1_n1', 'real mem_usage (virtual dispatch) on T1(1): values of symbolic length 0..8 and alignment 1..16', 'exact node count / reserved / used bytes', unwind={'_M_realloc': 3, 'mem_usageE': 2}, timeout=600),
+        H('n_misc', 'H_c20_t3', 'interior root over two leaves: per-level node counts and footprints', 'T3(2;1,2)', unwind={'_M_realloc': 3, 'mem_usageE': 2}, timeout=600),
     ],
     'C07': [
         H('s_c07l', 'H_c07_lean_t1', 'real enter/leave + epoch_thread + garbage_collection: reader session (left open) || remover session (unlink, retire) || epoch thread, then real gc passes: memory obtained inside the open session is not released', 'NT=3, sessions=2, template remover/epoch/reader/remover (4 contexts, every pre-emption point symbolic), <=2 epoch periods, SC', sync=3, timeout=2400),
@@ -153,7 +155,7 @@ REGISTRY = {
         H('n_c16', 'H_c16_two_cycles', 'real init(); ops; fin(); init(); fin(): fin terminates (thread bodies return), releases everything even with a session left open, next cycle clean', 'sessions=2; 2 cycles'),
     ],
     'C02': _T1_GET + _T1_REMOVE + _T1_PUT + _T0_PUT + _T1_BIG,
-    'C08': _T1_REMOVE + _T1_PUT + _T0_PUT + _T1_BIG + [h for h in _SCAN_Q if h['fn'] in ('H_scan_t1_n2', 'H_scan_t3_11')],
+    'C08': _T1_REMOVE + _T1_PUT + _T0_PUT + _T1_BIG + [h for h in _SCAN_Q if h['fn'] in ('H_scan_t1_n2', 'H_scan_t3_11_linf')],
     'C12': _T1_PUT + _T0_PUT + _T1_BIG,
     'C15': [
         H('k_value', 'H_val_create_roundtrip', 'value::create_value<false> -> get_body/get_len/get_gc_info/need_delete/delete_value + link_or_value::set_value', 'v_len 0..12 symbolic bytes, align 1..32'),
